@@ -36,6 +36,8 @@ fn boundary_chain() -> Vec<BlockSpec> {
     let mut it = blocks.into_iter();
     let mut chain = make_chain(5, &mut |h| if h == 0 { vec![] } else { it.next().unwrap() });
     chain[2].tx_count_width = 5; chain[2].version = 0x2000_0000; chain[2].bits = u32::MAX; chain[2].time = 0;
+    // a byte-identical coinbase in two blocks (legal before BIP34, e.g. mainnet 91722 / 91880): still one row each
+    chain[4].txs[0] = chain[1].txs[0].clone();
     relink(&mut chain);
     chain
 }
@@ -53,11 +55,15 @@ fn c01_csvdump_rows_match_disk() {
         let out = tempfile::tempdir().unwrap();
         let m = CsvDump::build_subcommand().get_matches_from(vec!["csvdump", out.path().to_str().unwrap()]);
         let mut cb = CsvDump::new(&m).unwrap();
+        log_begin();
         cb.on_start(s).unwrap();
         for (i, b) in blocks.iter().enumerate() { cb.on_block(b, s + i as u64).unwrap(); }
-        let (tc, ic, oc) = (cb.tx_count, cb.in_count, cb.out_count);
         cb.on_complete(4).unwrap();
         drop(cb);
+        // totals printed on completion: "-> transactions: N", "-> inputs: N", "-> outputs: N"
+        let lg = log_text();
+        let num = |key: &str| -> i64 { lg.lines().find_map(|l| l.trim().strip_prefix(key).map(|r| r.trim().parse::<i64>().unwrap_or(-1))).unwrap_or(-2) };
+        let (tc, ic, oc) = (num("-> transactions:"), num("-> inputs:"), num("-> outputs:"));
         let rd = |n: &str| csv_lines(&out.path().join(format!("{}-{}-4.csv", n, s)));
         let (gb, gt, gi, go) = (rd("blocks"), rd("transactions"), rd("tx_in"), rd("tx_out"));
         let (mut wb, mut wt, mut wi, mut wo) = (vec![], vec![], vec![], vec![]);
@@ -80,7 +86,7 @@ fn c01_csvdump_rows_match_disk() {
                 fail(suite, "C01:every_field_equals_the_value_on_disk", &format!("{} {}.csv row {}", inp, name, i), &cut(&g[i]), &cut(&w[i])); }
         }
         cases += 1;
-        check((tc as usize, ic as usize, oc as usize) == (wt.len(), wi.len(), wo.len()), suite, "C01:totals_equal_rows_written", &inp, &format!("{:?}", (tc, ic, oc)), &format!("{:?}", (wt.len(), wi.len(), wo.len())));
+        check((tc, ic, oc) == (wt.len() as i64, wi.len() as i64, wo.len() as i64), suite, "C01:totals_equal_rows_written", &inp, &format!("{:?}", (tc, ic, oc)), &format!("{:?}", (wt.len(), wi.len(), wo.len())));
     }
     finish(suite, cases);
 }
